@@ -42,7 +42,7 @@ func (c *Ctx) genScope() []*packages.Package {
 // orderExceptions: audited map iterations that the generic classifier cannot discharge.
 // key = function key + ":" + name of the ranged map (last selector/identifier).
 var orderExceptions = map[string]string{
-	"gen.reverseLookup:remap": "early return on a value match; the values of ActionVars.Remap are the distinct numRefs assigned in generateTables.traverse, so at most one key matches",
+	"gen.reverseLookup:remap":   "early return on a value match; the values of ActionVars.Remap are the distinct numRefs assigned in generateTables.traverse, so at most one key matches",
 	"compiler.addTypes:ArgRefs": "writes vars.Types[ref.Pos]; CmdArgs.ArgRefs is keyed by ArgRef.Pos (every writer stores m[x.Pos] = x), so distinct iterations write distinct cells",
 }
 
